@@ -89,7 +89,7 @@ func runC14(cx *ctx) {
 	r := cx.rng
 	vectors := loadVectors()
 	// 1. Decrypt on mutated CCTV vectors (binary and armored), compared with the model
-	for i := 0; i < cx.n(1500, 40000); i++ {
+	for i := 0; i < cx.n(6000, 80000); i++ {
 		rr := r.Fork()
 		v := vectors[rr.Intn(len(vectors))]
 		cx.ru.Do(func() *h.Case {
@@ -106,7 +106,7 @@ func runC14(cx *ctx) {
 		})
 	}
 	// 2. Decrypt on mutated own files of every recipient type
-	for i := 0; i < cx.n(600, 12000); i++ {
+	for i := 0; i < cx.n(2500, 30000); i++ {
 		rr := r.Fork()
 		cx.ru.Do(func() *h.Case {
 			p := mkParty(rr, rr.Intn(4))
@@ -186,7 +186,7 @@ func runC14(cx *ctx) {
 		{"plugin.NewRecipient", []byte(plugRec), func(b []byte) string { v, err := plugin.NewRecipient(string(b), nil); return errShape(v, err) }},
 	}
 	for _, e := range entries {
-		for i := 0; i < cx.n(150, 4000); i++ {
+		for i := 0; i < cx.n(600, 8000); i++ {
 			e := e
 			rr := r.Fork()
 			cx.ru.Do(func() *h.Case {
